@@ -321,7 +321,7 @@ func init() {
 				}
 				okURI := false
 				if e, ok := got["DkvFileUri"]; ok {
-					if sel, ok := deref(info, e).(*ast.SelectorExpr); ok && prog.SelField(info, sel) == uriF && handle != nil && prog.IdentObj(info, sel.X) == handle {
+					if sel, ok := deref(info, e).(*ast.SelectorExpr); ok && prog.SelField(info, sel) == uriF && handle != nil && derefObj(info, sel.X) == handle {
 						okURI = true
 					}
 				}
